@@ -20,7 +20,8 @@ from py_gql.execution.wrappers import _UNSET
 from py_gql.lang import ast as A
 from py_gql.lang import parse
 from py_gql.schema.scalars import coerce_float
-from py_gql.utilities import coerce_variable_values
+from py_gql.exc import CoercionError
+from py_gql.utilities import coerce_variable_values, collect_fields
 from py_gql.validation import validate_ast
 
 from .. import gen_requests as G
@@ -84,6 +85,14 @@ def corpus():
         c = _resp_case("A", "{ a }", {"a": shared}, config=cfg, label="shared-instance-across-requests")
         c["prelude"] = [[long_doc, {"o/a": shared}]]
         out.append(c)
+    # fixed 5d4e174: invalid @skip/@include arguments at execution time (nullable variable with a
+    # default supplied as null) escaped the entry points as CoercionError
+    for sname, text, payloads in G.DIRECTIVE_VARIABLE_CASES[:9]:
+        for cfg in G.CONFIGS:
+            out.append(_resp_case(sname, text, {}, payloads[0], None, cfg, "directive-argument-coercion"))
+    for i, (text, world) in enumerate(G.RESOLVE_TYPE_CASES):
+        for cfg in G.CONFIGS:
+            out.append(_resp_case("B", text, world, {}, None, cfg, "resolve-type-error"))
     # row 9 (named operation without source: its errors carry no location)
     out.append(_resp_case("A", "query Q { a } query Q { s }", label="row9"))
     out.append({"kind": "loc", "body": "a\n", "p": 2})
@@ -137,6 +146,16 @@ def generate(rng, tier):
         for pl in payloads:
             for cfg in (G.CONFIGS if not quick else [G.CONFIGS[n % 4]]):
                 cases.append(_resp_case("A", text, {}, pl, None, cfg, "variables"))
+            n += 1
+    # @skip / @include with nullable variables: null / missing / valid, root and nested
+    n = 0
+    for sname, text, payloads in G.DIRECTIVE_VARIABLE_CASES:
+        for pl in payloads:
+            for cfg in (G.CONFIGS if not quick else [G.CONFIGS[n % 4], G.CONFIGS[(n + 2) % 4]]):
+                world = {}
+                if n % 3 == 1:
+                    world = {"o/id": ["raise", "also fails", {"k": 1}], "s": ["null"]}
+                cases.append(_resp_case(sname, text, world, pl, None, cfg, "directive-variables"))
             n += 1
     # operation names
     n = 0
@@ -239,7 +258,7 @@ def _plain(v):
 
 
 def _stage_verdicts(schema, case):
-    st = {"parse": None, "validation": [], "opselect": None, "varcoercion": []}
+    st = {"parse": None, "validation": [], "opselect": None, "varcoercion": [], "rootcoercion": []}
     try:
         doc = parse(case["text"])
     except GraphQLSyntaxError as e:
@@ -257,9 +276,15 @@ def _stage_verdicts(schema, case):
         st["opselect"] = _safe_str(e)
     if op is not None:
         try:
-            coerce_variable_values(schema, op, decode_floats(case["variables"]))
+            coerced = coerce_variable_values(schema, op, decode_floats(case["variables"]))
         except VariablesCoercionError as e:
             st["varcoercion"] = [abstract_error(x) for x in e.errors]
+        else:
+            # @skip / @include arguments of the root selection set (collected before execution starts)
+            try:
+                collect_fields(schema, _root, op.selection_set.selections, doc.fragments, coerced)
+            except CoercionError as e:
+                st["rootcoercion"] = [abstract_error(e)]
     return st, doc, op
 
 
@@ -421,7 +446,8 @@ def run_impl(case):
 # ---------------------------------------------------------------- serialisation
 def _stages_term(case, obs):
     st = obs["stages"]
-    early = st["parse"] is not None or st["validation"] or st["opselect"] is not None or st["varcoercion"]
+    early = (st["parse"] is not None or st["validation"] or st["opselect"] is not None or st["varcoercion"]
+             or st.get("rootcoercion"))
     if obs.get("kind") == "response" and not early:
         data = decode_floats(obs["result_data"])
         ex = "(%s, %s)" % (cjson(data), ser.clist(obs["result_errors"], cerr))
@@ -429,10 +455,11 @@ def _stages_term(case, obs):
         ex = "(JNull, [])"
     parse_t = "None" if st["parse"] is None else "(Some (%s, %s))" % (
         ser.cstr(st["parse"]["msg"]), "(N.to_nat %d)" % max(0, st["parse"]["pos"]))
-    return "(Stages %s %s %s %s %s %s)" % (
+    return "(Stages %s %s %s %s %s %s %s)" % (
         parse_t, ser.clist(st["validation"], cerr),
         "None" if st["opselect"] is None else "(Some %s)" % ser.cstr(st["opselect"]),
         ser.clist(st["varcoercion"], cerr),
+        ser.clist(st.get("rootcoercion", []), cerr),
         ser.clist(decode_floats(obs.get("floats", [])), lambda f: cjnum(float(f))),
         ex)
 
@@ -491,6 +518,8 @@ def _stage_name(obs):
         return "operation-selection"
     if st.get("varcoercion"):
         return "variable-coercion"
+    if st.get("rootcoercion"):
+        return "root directive-argument coercion"
     return "execution"
 
 
